@@ -447,12 +447,10 @@ pub fn finish(
     let inconclusive_n = merged.stats.get("inconclusive").copied().unwrap_or(0);
 
     let mut missing: Vec<String> = vec![];
-    if distinct < spec.min_nontrivial.max(2) {
-        missing.push(format!(
-            "distinct_nontrivial {} < required {}",
-            distinct,
-            spec.min_nontrivial.max(2)
-        ));
+    // (min_nontrivial == 0 only for the replay of a single witness)
+    let need = if spec.min_nontrivial == 0 { 0 } else { spec.min_nontrivial.max(2) };
+    if distinct < need {
+        missing.push(format!("distinct_nontrivial {} < required {}", distinct, need));
     }
     for k in spec.required_stats {
         if merged.stats.get(*k).copied().unwrap_or(0) == 0 {
